@@ -152,10 +152,16 @@ def simulate(
     sm = sm.copy()
     if isinstance(init, statematrix.StateMatrix):
         # the partial derivatives carried by the initial state matrix continue with it
+        # (with the same options; equilibrium and coordinates are those of the partials themselves)
+        popts = {
+            key: options[key]
+            for key in options
+            if key not in ("equilibrium", "coords", "density")
+        }
         for name in ("order1", "order2"):
             if hasattr(init, name):
                 partials = getattr(init, name)
-                setattr(sm, name, {key: partials[key].copy(**options) for key in partials})
+                setattr(sm, name, {key: partials[key].copy(**popts) for key in partials})
 
     # run simulation
     values, times = simulate_simple(
